@@ -792,3 +792,12 @@ pub trait StatsProvider {
     fn get_stats(&self, object: ObjectId) -> Option<Stats>;
     fn get_column_stats(&self, object: ObjectId, column_index: usize) -> Option<ColumnStats>;
 }
+
+/// Verification hooks (feature `verif`, add-only).
+#[cfg(feature = "verif")]
+impl Catalog {
+    /// (root page of the meta table, root page of the meta index)
+    pub(crate) fn verif_meta_roots(&self) -> (PageId, PageId) {
+        (self.meta_table, self.meta_index)
+    }
+}
